@@ -67,11 +67,56 @@ def _ens(ctx, st, ret):
             ("cleaning.requested", ret.get("do_clean") is True)]
 
 
-from_intervals = Contract("C09.GenomicRunLengthArray.from_intervals[scalar value]", target=lambda: _G().from_intervals.__func__, setup=_setup, requires=_req,
-                          ensures=_ens, dropped=["docstring", "assert messages", "annotations"], decorators={"@classmethod": "receiver is the class"},
-                          canaries=[("postfix test on the wrong end", "postfix = [size] if (len(ends) == 0 or ends[-1] != size) else []", "postfix = [size] if (len(ends) == 0 or ends[0] != size) else []"),
-                                    ("values not shifted when starting at 0", "values = values[1:]", "values = values[0:]"),
-                                    ("ends placed one slot late", "events[len(prefix)+1:-1:2] = ends", "events[len(prefix)+2:-1:2] = ends"),
-                                    ("default and value swapped", "values[::2] = default_value", "values[::2] = tmp")])
+def _concretize(model, ctx, st, oid):
+    """replay a counter-model on the real from_intervals: the run-length array must denote value inside the intervals, default in the gaps,
+    and end at `size` (checked through events/values and, for small sizes, the dense array)"""
+    import numpy as np
+    mv = lambda t: model.eval(t, model_completion=True).as_long()
+    K, size = mv(st.K), mv(st.size)
+    if K > 6:
+        K = 1
+    iv = []
+    for i in range(K):
+        a, b = mv(st.s(z3.IntVal(i))), mv(st.e(z3.IntVal(i)))
+        if not (0 <= a < b <= size and (not iv or iv[-1][1] <= a)):
+            a = iv[-1][1] if iv else 0
+            b = a + 1
+        if b <= size:
+            iv.append((a, b))
+    if not iv:
+        iv = [(0, 1)]
+    starts, ends = np.array([a for a, b in iv], dtype=int), np.array([b for a, b in iv], dtype=int)
+    inp = {"starts": starts.tolist(), "ends": ends.tolist(), "size": size, "values": 7, "default_value": 0}
+    try:
+        r = _G().from_intervals(starts, ends, size, values=7, default_value=0)
+        ev, va = np.asarray(r._events if hasattr(r, "_events") else r.starts), np.asarray(r._values)
+        # denotation: value of the run containing position p
+        probes = sorted({0, size - 1} | {a for a, b in iv} | {b - 1 for a, b in iv} | {b for a, b in iv if b < size} | {a - 1 for a, b in iv if a > 0})
+        bad = []
+        for p in probes:
+            t = int(np.searchsorted(ev, p, side="right") - 1)
+            got = int(va[t]) if 0 <= t < len(va) else None
+            exp = 7 if any(a <= p < b for a, b in iv) else 0
+            if got != exp:
+                bad.append((p, got, exp))
+        if int(ev[-1]) != size:
+            bad.append(("last event", int(ev[-1]), size))
+        return {"reproduced": bool(bad), "input": inp, "wrong_positions (position, got, expected)": bad[:6]}
+    except Exception as e:
+        return {"reproduced": True, "input": inp, "raised": repr(e)}
+
+
+def mk_from_intervals(prefix):
+    return Contract("%s.GenomicRunLengthArray.from_intervals[scalar value]" % prefix, target=lambda: _G().from_intervals.__func__, setup=_setup, requires=_req,
+                    ensures=_ens, dropped=["docstring", "assert messages", "annotations"], decorators={"@classmethod": "receiver is the class"},
+                    concretize=_concretize,
+                    canaries=[("postfix test on the wrong end", "postfix = [size] if (len(ends) == 0 or ends[-1] != size) else []", "postfix = [size] if (len(ends) == 0 or ends[0] != size) else []"),
+                              ("values not shifted when starting at 0", "values = values[1:]", "values = values[0:]"),
+                              ("ends placed one slot late", "events[len(prefix)+1:-1:2] = ends", "events[len(prefix)+2:-1:2] = ends"),
+                              ("default and value swapped", "values[::2] = default_value", "values[::2] = tmp"),
+                              ("32-bit event array (positions of a whole genome do not fit)", "starts.size + ends.size, dtype=int)", "starts.size + ends.size, dtype=np.int32)")])
+
+
+from_intervals = mk_from_intervals("C09")
 
 CONTRACTS = [from_intervals]
